@@ -1,11 +1,22 @@
 import Pyc.Model.SchemaCheck
-import Pyc.Model.Codec
+import Pyc.Proofs.Codec
+import Pyc.Proofs.Typed
 import Pyc.Generated.Schema
 
-/-! # C01 — decoding an encoded ledger object returns an equal object (table part; generic theorems below) -/
+/-! # C01 — decoding an encoded ledger object returns an equal object
+
+* **T1 obligations**: the table `repoSchema` is regenerated from /repo's live classes on every run; the kernel
+  re-checks that it is well-formed and that the big unions dispatch unambiguously.
+* **generic theorem**: for *every* schema table `S` and every value typed by `HasType S` (integers in the 64-bit
+  ranges, bytes, text, bool, `None`, rationals, lists, ordered sets with their tag flag, ordered unions, hash
+  classes, enums, array / coded / map classes restored by the generic code, classes with their own codec as opaque
+  primitives), decoding the encoding returns the value and re-encoding returns the bytes — with no bound on size or
+  nesting.  Its only hypothesis is the union side condition `WFS`, which `unionOK_coded` discharges for unions of
+  coded classes with distinct codes (the certificate and governance-action unions).
+Classes with a hand-written codec are opaque here: their own round trip is judged on the implementation. -/
 
 namespace Pyc.C01
-open Pyc.Schema Pyc.Generated
+open Pyc Pyc.Codec Pyc.Cbor Pyc.Schema Pyc.Generated
 
 /-- the regenerated table is well-formed: class names unique, map keys unique per class, optional positional fields
 trailing, every referenced class defined -/
@@ -16,13 +27,137 @@ def namedUnion (n : String) : List Ty :=
   | some (_, .union ts) => ts
   | _ => []
 
-/-- the certificate and governance-action unions consist of coded classes with pairwise distinct codes: whatever
-the declaration order, at most one alternative accepts a given array, so dispatch is unambiguous -/
+/-- the certificate and governance-action unions consist of coded classes with pairwise distinct codes -/
 theorem certificate_union_unambiguous : codedUnionOK repoSchema (namedUnion "Certificate") = true := by decide +kernel
 theorem govaction_union_unambiguous : codedUnionOK repoSchema (namedUnion "GovAction") = true := by decide +kernel
+
+/-- **generic round trip** (any schema, any typed value, any size): decode ∘ encode = id -/
+theorem codec_roundtrip (S : List ClassDef) (hS : WFS S) (t : Ty) (v : Val) (h : HasType S t v) :
+    ∃ N, ∀ fuel, N ≤ fuel → fromPrim S fuel t (toPrim S v) = .ok v := rt_all hS h
+
+/-- … and serializing the decoded object again yields the same bytes -/
+theorem codec_reencode (S : List ClassDef) (hS : WFS S) (t : Ty) (v : Val) (h : HasType S t v) :
+    ∃ N, ∀ fuel, N ≤ fuel → ∃ v', fromPrim S fuel t (toPrim S v) = .ok v' ∧ encodeVal S v' = encodeVal S v := by
+  obtain ⟨N, hN⟩ := rt_all hS h
+  exact ⟨N, fun fuel hf => ⟨v, hN fuel hf, rfl⟩⟩
+
+/-- unions of generic coded classes with pairwise distinct codes satisfy the union side condition, whatever the
+declaration order of the alternatives -/
+theorem union_side_condition_coded (S : List ClassDef) (ts : List Ty) (ks : List Nat) (hc : CodedAlts S ts ks)
+    (hd : ks.Nodup) (pre : List Ty) (t : Ty) (post : List Ty) (he : ts = pre ++ t :: post) (v : Val)
+    (hv : HasType S t v) : ∀ t' ∈ pre, ∃ N, ∀ fuel, N ≤ fuel → fromPrim S fuel t' (toPrim S v) = .deser :=
+  unionOK_coded ts ks hc hd pre t post he v hv
+
+/-- classes of the regenerated table the generic theorem covers as table-driven objects (a lower bound: classes added
+later do not disturb it; a listed class that acquires its own codec or a shape outside the theorem does) -/
+def coreNames : List String :=
+    ["Anchor", "AuthCommitteeHotCertificate", "DRepVotingThresholds", "ExUnitPrices", "ExecutionUnits", "InfoAction",
+     "NewConstitution", "NoConfidence", "ParameterChangeAction", "PoolMetadata", "PoolRetirement", "PoolVotingThresholds",
+     "ProposalProcedure", "ProtocolParamUpdate", "RegDRepCert", "ResignCommitteeColdCertificate", "StakeAndVoteDelegation",
+     "StakeDelegation", "StakeDeregistration", "StakeDeregistrationConway", "StakeRegistration",
+     "StakeRegistrationAndDelegation", "StakeRegistrationAndDelegationAndVoteDelegation",
+     "StakeRegistrationAndVoteDelegation", "StakeRegistrationConway", "Transaction", "TransactionInput",
+     "TreasuryWithdrawalsAction", "UTxO", "UnregDRepCertificate", "UpdateCommittee", "UpdateDRepCertificate",
+     "VoteDelegation", "_TransactionOutputPostAlonzo"]
+
+theorem repo_core_classes : coreNames.all (fun n => match lookup repoSchema n with
+    | some cd => coreClass cd | Option.none => false) = true := by decide +kernel
+
+/-- every class the generic theorem covers has the shape the theorem needs (soundness of the Boolean check) -/
+theorem core_class_shape (cd : ClassDef) (h : coreClass cd = true) : Generic cd ∧ ShapeOK cd := by
+  unfold coreClass at h
+  simp only [Bool.and_eq_true] at h
+  exact ⟨genericB_sound cd h.1, shapeOK_sound cd h.2⟩
+
+/-- the alternatives of a named union of the regenerated table that are generic coded classes (in the current tree:
+all of Certificate but `PoolRegistration`, all of GovAction but `HardForkInitiationAction`, whose own codecs are
+judged on the implementation) -/
+def codedPart (n : String) : List Ty :=
+  (namedUnion n).filter (fun t => match t with
+    | .cls c => (match lookup repoSchema c with | some cd => coreClass cd | Option.none => false)
+    | _ => false)
+
+def nodupB : List Nat → Bool
+  | [] => true
+  | k :: ks => !ks.contains k && nodupB ks
+
+theorem nodupB_sound (ks : List Nat) (h : nodupB ks = true) : ks.Nodup := by
+  induction ks with
+  | nil => simp
+  | cons k ks ih =>
+    simp only [nodupB, Bool.and_eq_true, Bool.not_eq_true'] at h
+    rw [List.nodup_cons]
+    refine ⟨fun hm => ?_, ih h.2⟩
+    have := List.contains_iff_mem.2 hm
+    rw [h.1] at this; exact absurd this (by decide)
+
+/-- every such alternative is a generic coded class and the codes are pairwise distinct -/
+def codedPartOK (n : String) : Bool :=
+  match codedAltsB repoSchema (codedPart n) with
+  | some ks => nodupB ks && decide (2 ≤ ks.length)
+  | Option.none => false
+
+theorem certificate_coded_part : codedPartOK "Certificate" = true := by decide +kernel
+theorem govaction_coded_part : codedPartOK "GovAction" = true := by decide +kernel
+
+theorem coded_dispatch (n : String) (hok : codedPartOK n = true) (pre : List Ty) (t : Ty) (post : List Ty)
+    (he : codedPart n = pre ++ t :: post) (v : Val) (hv : HasType repoSchema t v) :
+    ∀ t' ∈ pre, ∃ N, ∀ fuel, N ≤ fuel → fromPrim repoSchema fuel t' (toPrim repoSchema v) = .deser := by
+  unfold codedPartOK at hok
+  cases hc : codedAltsB repoSchema (codedPart n) with
+  | none => rw [hc] at hok; simp at hok
+  | some ks =>
+    rw [hc] at hok; simp only [Bool.and_eq_true] at hok
+    exact unionOK_coded _ _ (codedAltsB_sound _ _ _ hc) (nodupB_sound _ hok.1) pre t post he v hv
+
+/-- **the union side condition holds on the REAL certificate table**: whichever generic alternative produced a typed
+value, every earlier generic alternative answers `DeserializeException` on its image, so ordered dispatch reaches
+the right class -/
+theorem certificate_dispatch (pre : List Ty) (t : Ty) (post : List Ty) (he : codedPart "Certificate" = pre ++ t :: post)
+    (v : Val) (hv : HasType repoSchema t v) :
+    ∀ t' ∈ pre, ∃ N, ∀ fuel, N ≤ fuel → fromPrim repoSchema fuel t' (toPrim repoSchema v) = .deser :=
+  coded_dispatch "Certificate" certificate_coded_part pre t post he v hv
+
+theorem govaction_dispatch (pre : List Ty) (t : Ty) (post : List Ty) (he : codedPart "GovAction" = pre ++ t :: post)
+    (v : Val) (hv : HasType repoSchema t v) :
+    ∀ t' ∈ pre, ∃ N, ∀ fuel, N ≤ fuel → fromPrim repoSchema fuel t' (toPrim repoSchema v) = .deser :=
+  coded_dispatch "GovAction" govaction_coded_part pre t post he v hv
+
+/-- soundness of the executable typing check the driver runs on the harness's generated values -/
+theorem typed_check_sound (S : List ClassDef) (fuel : Nat) (t : Ty) (v : Val) (h : typedB S fuel t v = true) :
+    HasType S t v := typedB_sound S fuel t v h
+
+/-! non-vacuity on the REAL table: a transaction input (hash class + boundary integer) and a stake registration
+certificate inside the certificate union are typed, so the theorems apply to them; and the kernel evaluates the
+round trip of that certificate through ordered dispatch -/
+def exInput : Val := .obj "TransactionInput" [.cb (List.replicate 32 7), .int 4294967296]
+def exCert : Val := .obj "StakeRegistrationConway" [.opaque (.array [.uint 0, .bytes (List.replicate 28 1)]), .int 2000000]
+
+example : HasType repoSchema (.cls "TransactionInput") exInput := typedB_sound _ 10 _ _ (by decide +kernel)
+example : HasType repoSchema (.union (codedPart "Certificate")) exCert := typedB_sound _ 10 _ _ (by decide +kernel)
+example :
+    (match fromPrim repoSchema 10 (.cls "TransactionInput") (toPrim repoSchema exInput) with
+      | .ok (.obj n [.cb b, .int i]) => n == "TransactionInput" && b == List.replicate 32 7 && i == 4294967296
+      | _ => false) = true := by decide +kernel
+example :
+    (match fromPrim repoSchema 50 (.union (codedPart "Certificate")) (toPrim repoSchema exCert) with
+      | .ok (.obj n _) => n == "StakeRegistrationConway"
+      | _ => false) = true := by decide +kernel
 
 end Pyc.C01
 
 #print axioms Pyc.C01.repo_schema_wf
 #print axioms Pyc.C01.certificate_union_unambiguous
 #print axioms Pyc.C01.govaction_union_unambiguous
+#print axioms Pyc.C01.codec_roundtrip
+#print axioms Pyc.C01.codec_reencode
+#print axioms Pyc.C01.union_side_condition_coded
+#print axioms Pyc.C01.repo_core_classes
+#print axioms Pyc.C01.core_class_shape
+#print axioms Pyc.C01.certificate_coded_part
+#print axioms Pyc.C01.govaction_coded_part
+#print axioms Pyc.C01.certificate_dispatch
+#print axioms Pyc.C01.govaction_dispatch
+#print axioms Pyc.C01.typed_check_sound
+#print axioms Pyc.C01.nodupB_sound
+#print axioms Pyc.C01.coded_dispatch
